@@ -108,9 +108,10 @@ def decision_facts(c):
     """(upper, lower): bounds |gen| <= u, gen >= l (> 0) implied by the path's decisions.
     Recognised facts:  Q <= const (Q positive diagonal quadratic form),  R^k <= const,  R^k >= const
     for square-root generators R (R >= 0)."""
-    if getattr(c, "_dfacts", None) is not None:
-        return c._dfacts
     alg = c.alg
+    # (cached per number of generators: square-root / abs generators created later need their bounds too)
+    if getattr(c, "_dfacts", None) is not None and c._dfacts_at == len(alg.gen_atom):
+        return c._dfacts
     upper, lower = {}, {}
     sqrt_gens = [(name, atom.args[0]) for name, (atom, role) in alg.gen_atom.items() if atom.kind == "sqrt"]
     abs_gens = [(name, atom.args[0]) for name, (atom, role) in alg.gen_atom.items() if atom.kind == "abs"]
@@ -198,6 +199,7 @@ def decision_facts(c):
                 for g, a in quad.items():
                     up(g, upper[rn] / _root_down(a, 2))
     c._dfacts = (upper, lower)
+    c._dfacts_at = len(alg.gen_atom)
     return c._dfacts
 
 
